@@ -128,6 +128,7 @@ Mutate(op, n) ==
    /\ (base # FullBase => (muts = <<>> /\ n <= SparseNodes /\ op \in SparseOps))
    /\ base \notin BlobBases                                          \* a blob has no nodes to mutate
    /\ (op \in LexOps => n % LexStride = Seed % LexStride)
+   /\ (Len(muts) >= 1 => (op \notin LexOps /\ muts[1].op \notin LexOps))   \* lexical operators singly (the pair level is tree x tree)
    /\ muts' = Append(muts, [op |-> op, node |-> n])
    /\ UNCHANGED <<entry, allow, yaml, base>>
 
